@@ -122,7 +122,7 @@ static KMS_COUNTER: Mutex<u64> = Mutex::new(0);
 ///   handle:<L>  wraps to an opaque L-byte handle kept in a table (any length 1..=65535)
 ///   id          identity
 ///   errenc / errdec        the provider call fails
-///   wrongkey / wronglen    decrypt_dek returns another 32-byte key / a 16-byte key
+///   wrongkey / wronglen / longkey   decrypt_dek returns another 32-byte key / a 16-byte key / the key plus 16 bytes
 struct HarnessKms {
     kind: String,
     wrapped_len: usize,
@@ -164,6 +164,8 @@ impl KmsProvider for HarnessKms {
             "id" => Ok(w.clone()),
             "wrongkey" => looked().map(|d| d.iter().map(|b| b ^ 0x55).collect()),
             "wronglen" => looked().map(|d| d[..16].to_vec()),
+            // the right key followed by 16 more bytes: still not a 32-byte key
+            "longkey" => looked().map(|d| { let mut k = d.clone(); k.extend_from_slice(&[0xA5u8; 16]); k }),
             _ => looked(),
         }
     }
